@@ -280,6 +280,29 @@ pub fn shim_intoiter_collect_vec<I: IntoIterator>(it: I) -> (r: Vec<I::Item>)
 {
     it.into_iter().collect()
 }
+/// N7: stands for `Box<dyn Iterator<Item = &'a X> + 'a>` (trait objects are outside Verus): an iterator over borrowed
+/// elements, viewed as the sequence of elements it will still yield.  `over(v)` replaces `Box::new(v.iter())`, `empty()`
+/// replaces `Box::new(std::iter::empty())`; `next` is the trait object's `next`.
+#[verifier::external_body]
+#[verifier::reject_recursive_types(X)]
+pub struct DynIter<'a, X> { it: Box<dyn Iterator<Item = &'a X> + 'a> }
+impl<'a, X> DynIter<'a, X> {
+    pub uninterp spec fn rest(&self) -> Seq<X>;
+    #[verifier::external_body]
+    pub fn over(v: &'a Vec<X>) -> (r: Self)
+        ensures r.rest() == v@,
+    { DynIter { it: Box::new(v.iter()) } }
+    #[verifier::external_body]
+    pub fn empty() -> (r: Self)
+        ensures r.rest() == Seq::<X>::empty(),
+    { DynIter { it: Box::new(std::iter::empty()) } }
+    #[verifier::external_body]
+    pub fn next(&mut self) -> (r: Option<&'a X>)
+        ensures
+            old(self).rest().len() > 0 ==> r is Some && *r->0 == old(self).rest()[0] && final(self).rest() == old(self).rest().drop_first(),
+            old(self).rest().len() == 0 ==> r is None && final(self).rest() == old(self).rest(),
+    { self.it.next() }
+}
 /// `SET.append(&mut OTHER)` for BTreeSets
 #[verifier::external_body]
 pub fn shim_btreeset_append<T: Ord>(s: &mut BTreeSet<T>, other: &mut BTreeSet<T>)
